@@ -209,7 +209,7 @@ def model_stage(ctx, slices, fatal, module=None):
                "complete": st["finished"] and not st["timeout"], "scripts_replayed": rep["summary"]["scripts"],
                "steps_replayed": rep["summary"]["steps"], "cover": rep["summary"]["cover"]}
         ctx.cov["slices"].append(slc)
-        if st["timeout"] or not st["finished"]:
+        if st["timeout"] or not st["finished"] or rep["summary"]["cover"].get("lost_lines"):
             ctx.cov["exhaustive"] = False
         if rep["summary"]["script_errors"]:
             raise ToolError(f"slice {name}: {rep['summary']['script_errors']} scripts could not be interpreted: "
@@ -326,7 +326,14 @@ def proj(res, unordered=False):
     return out
 
 
-def trace_stage(ctx, fatal, n_quick=120, n_thorough=1200, suites=None, id_modes=("plain", "u16mul", "big", "derive")):
+def strip_reloads(line):
+    s = json.loads(line)
+    s["steps"] = [st for st in s["steps"] if st.get("op") != "reload"]
+    return json.dumps(s)
+
+
+def trace_stage(ctx, fatal, n_quick=120, n_thorough=1200, suites=None, id_modes=("plain", "u16mul", "big", "derive"),
+                paired_reload=False):
     """code -> spec.  Value-free structures of TLC's behaviours are run on the toy
     witness field (validated exactly by TraceAlg) and on the real suites
     (validated against the witness projection and value-free laws by TraceReal)."""
@@ -466,6 +473,43 @@ def trace_stage(ctx, fatal, n_quick=120, n_thorough=1200, suites=None, id_modes=
     report(bad, ev, "real", {"seed": ctx.seed})
     if len(ctx.cov["samples"]) < 4 and ev:
         ctx.cov["samples"].append({"real_suite_events": ev[1:4]})
+
+    # 4. C13: paired runs under one seed, with and without save/restore: every later output must be identical
+    if paired_reload:
+        sp2 = os.path.join(d, "structs_noreload.ndjson")
+        open(sp2, "w").write("\n".join(strip_reloads(s) for s in structs) + "\n")
+        pair_path = os.path.join(d, "paired.ndjson")
+        n_pairs = 0
+        with open(pair_path, "w") as out:
+            for si, suite in enumerate(["toy"] + list(suites or REAL_SUITES)):
+                a = os.path.join(d, f"{suite}-with.ndjson")
+                b = os.path.join(d, f"{suite}-without.ndjson")
+                fv_run(suite, ctx.seed * 11 + si, a)
+                rc, o, e = sh(f"{FV} run --suite {suite} --q {WITNESS_Q} --seed {ctx.seed * 11 + si} --events {b} < {sp2}", cwd=d, timeout=1800)
+                wa, wb = by_script(load_events(a)), by_script(load_events(b))
+                for sidx in wa:
+                    plain = [x for x in wb.get(sidx, [])]
+                    k = 0
+                    out.write(json.dumps({"op": "reset", "script": sidx, "suite": suite, "id_mode": "plain"}) + "\n")
+                    n_pairs += 1
+                    for x in wa[sidx]:
+                        x.pop("queries", None)
+                        if x.get("op") != "reload":
+                            if k < len(plain):
+                                w = {kk: vv for kk, vv in plain[k]["res"].items() if not kk.startswith("rng_")}
+                                x["wit"] = w
+                            k += 1
+                        x["res"] = {kk: vv for kk, vv in x["res"].items() if not kk.startswith("rng_")}
+                        out.write(json.dumps(x) + "\n")
+                os.remove(a)
+                os.remove(b)
+        n_ev, bad = run_trace_tlc(d, "TraceReal", pair_path)
+        ev = load_events(pair_path)
+        log(f"[{ctx.pid}] paired save/restore runs: {n_pairs} pairs, {n_ev} events validated against TraceReal, {len(bad)} differences")
+        ctx.cov["trace_events_validated"] += n_ev
+        ctx.cov["traces_validated_against_impl"] += n_pairs
+        ctx.cov["paired_runs"] = n_pairs
+        report(bad, ev, "paired", {"seed": ctx.seed})
 
 
 def codec_stage(ctx):
